@@ -156,11 +156,11 @@ where
     }
 
     pub fn owned(&self) -> Result<T::Owned> {
-        T::owned(&self.test_data.data.try_borrow()?[..])
+        T::owned(&self.test_data.data.try_borrow()?[..self.test_data.len.get()])
     }
 
     pub fn underlying_data(&self) -> Result<Vec<u8>> {
-        Ok(self.test_data.data.try_borrow()?.to_vec())
+        Ok(self.test_data.data.try_borrow()?[..self.test_data.len.get()].to_vec())
     }
 }
 
